@@ -277,9 +277,13 @@ def dkep2dv(orb, *, da=0, di=0, dOmega=0):
 
     v_final = orb.infos.v + dv_a
 
-    # Rotation of the velocity vector by dangle: in-plane and out-of-plane
-    # components of (v_final rotated) - v
-    dv_t = v_final * np.cos(dangle) - orb.infos.v
-    dv_w = v_final * np.sin(dangle)
+    # The orbital plane is rotated by dangle around the radial direction: only
+    # the transverse part of the velocity (v * cos_fpa) is rotated, the radial
+    # part (v * sin_fpa) is unchanged
+    cos_fpa, sin_fpa = orb.infos.cos_fpa, orb.infos.sin_fpa
 
-    return np.array([dv_t, 0, dv_w])
+    dv_t = dv_a + v_final * cos_fpa ** 2 * (np.cos(dangle) - 1)
+    dv_n = v_final * sin_fpa * cos_fpa * (np.cos(dangle) - 1)
+    dv_w = v_final * cos_fpa * np.sin(dangle)
+
+    return np.array([dv_t, dv_n, dv_w])
